@@ -45,7 +45,8 @@ CHECKS["C04"] = {
 CHECKS["C05"] = {
     "technique": "bounded exhaustive enumeration of signatures/programs x all argument values through encode_input -> real circuit -> decode_output",
     "text": "Every program of the type/builtin family (all signature shapes) plus two-argument integer and statement programs is compiled; for "
-            "every argument value the encoded string, the simulated circuit reading and the decoded value are checked against reference codecs.",
+            "every argument value the encoded string, the simulated circuit reading and the decoded value are checked against reference codecs, and "
+            "the value itself against CPython running the source.",
     "note": "Trusted: reference codec (pyref.decode_value), bitsim, the documented string convention. <= 10 input bits.",
     "ref": "§5 C05",
 }
@@ -76,7 +77,8 @@ CHECKS["C08"] = {
 }
 CHECKS["C10"] = {
     "technique": "explicit-state search over API operation sequences on the live interpreter: fork() snapshots, canonical state hashing, invariants on every transition",
-    "text": "All sequences of <= 3 (quick) / <= 4 (thorough) operations from a 33-operation menu are explored with fork() as exact snapshot; states "
+    "text": "All sequences of <= 2 operations from a 43-operation menu (<= 3 below five first operations; thorough: one level deeper) are explored "
+            "with fork() as exact snapshot; states "
             "(module namespaces, default arguments, live object fingerprints) are deduplicated by hash; on every transition: no damage to live "
             "objects, result equal to the pristine-interpreter reference, raises iff the reference raises.",
     "note": "Trusted: the canonical-state abstraction (argued in DESIGN §3.4); references validated against a genuinely fresh interpreter. Runs in one "
@@ -112,7 +114,7 @@ CHECKS["C14"] = {
 }
 CHECKS["C15"] = {
     "technique": "exhaustive enumeration of every solution set (|S| <= N/4) x syntactic forms; exact output distribution by sparse state simulation vs ideal-oracle construction",
-    "text": "For every solution set of the stated widths and seven ways of writing / compiling the predicate, the exact Grover output distribution "
+    "text": "For every solution set of the stated widths and 14 ways of writing / compiling the predicate, the exact Grover output distribution "
             "equals that of the same construction on an ideal oracle, ranks solutions first, exceeds 1/2, and decodes to the argument type.",
     "note": "Trusted: sparse simulator (cross-checked with the dense one), ideal minterm oracle. n <= 4 (5 with |S| <= 2).",
     "ref": "§5 C15",
@@ -120,7 +122,7 @@ CHECKS["C15"] = {
 CHECKS["C16"] = {
     "technique": "exhaustive enumeration of all constant/balanced functions, all secrets, all periods; exact output distributions by sparse state simulation",
     "text": "Deutsch-Jozsa on every constant/balanced function (n <= 3, 4 thorough), Bernstein-Vazirani on every secret (n <= 4, 5), Simon on every "
-            "period (n <= 3, 4) with three functions each; distributions and decoded outcomes must meet the textbook guarantees, with an ideal-oracle "
+            "period (n <= 3, 4) with 7-39 functions each (thorough: every two-to-one function on 3 bits); distributions and decoded outcomes must meet the textbook guarantees, with an ideal-oracle "
             "twin to attribute failures.",
     "note": "Trusted: sparse simulator, ideal oracle.",
     "ref": "§5 C16",
